@@ -21,6 +21,8 @@ pub enum SetOp {
     Remove { k: u8, f: Form },
     Take { k: u8, f: Form },
     Retain { keep: u8 },
+    /// `retain` with a stateful predicate: its i-th answer is bit i of the tape, whatever element it is shown
+    RetainTape { tape: u8 },
     Clear,
     Drain { take: u8, forget: bool },
     /// extend with `len` items; item i is (k, tag) = (seq[i] & 7, seq[i] >> 3)
@@ -89,6 +91,11 @@ pub fn alphabet<K: KeyT>(n: usize, nk: u8, which: SAlpha, ext_len: u8) -> Vec<Se
     for keep in 0..(1u16 << nk) {
         a.push(SetOp::Retain { keep: keep as u8 });
     }
+    // every answer tape of n+1 bits (bit n answers every call beyond the n-th, if there is one)
+    for tape in 0..(1u16 << (n.min(6) + 1)) {
+        let tape = if tape >> n.min(6) & 1 != 0 { tape as u8 | (0xffu8 << n.min(6)) } else { tape as u8 };
+        a.push(SetOp::RetainTape { tape });
+    }
     a.push(SetOp::Clear);
     for take in 0..=(n as u8 + 1) {
         a.push(SetOp::Drain { take, forget: false });
@@ -152,6 +159,8 @@ pub struct SModelOut {
     pub identity_case: bool,
     /// expected number of `next()` calls on the source (extend)
     pub pulls: Option<u32>,
+    /// retain did not show its predicate every stored element exactly once
+    pub visit_error: Option<String>,
 }
 impl SModelOut {
     fn exact(r: Ret) -> Self {
@@ -161,6 +170,7 @@ impl SModelOut {
             leak_ok: Vec::new(),
             identity_case: false,
             pulls: None,
+            visit_error: None,
         }
     }
 }
@@ -208,7 +218,7 @@ pub fn prepare<K: KeyT>(op: &SetOp) -> SArgs<K> {
     a
 }
 
-pub fn exec_model(model: &mut RefSet, op: &SetOp, a: &SArgs<impl Sized>) -> SModelOut {
+pub fn exec_model(model: &mut RefSet, op: &SetOp, a: &SArgs<impl Sized>, visits: &[KD]) -> SModelOut {
     match *op {
         SetOp::Insert { k, .. } => {
             if model.s.contains_key(&k) {
@@ -253,6 +263,22 @@ pub fn exec_model(model: &mut RefSet, op: &SetOp, a: &SArgs<impl Sized>) -> SMod
         SetOp::Retain { keep } => {
             model.s.retain(|k, _| keep & (1 << k) != 0);
             SModelOut::exact(vec![])
+        }
+        SetOp::RetainTape { tape } => {
+            let answer = |i: usize| tape >> i.min(7) & 1 != 0;
+            let mut want: Vec<u8> = model.s.keys().copied().collect();
+            want.sort_unstable();
+            let mut got: Vec<u8> = visits.iter().map(|k| k.k).collect();
+            got.sort_unstable();
+            let mut o = SModelOut::exact(vec![]);
+            if got != want {
+                o.visit_error = Some(format!(
+                    "retain showed its predicate the elements {got:?} (sorted) but the set held {want:?}: every element must be shown exactly once"
+                ));
+            }
+            // the one answer given for an element decides (first visit, should there be several)
+            model.s.retain(|k, _| visits.iter().position(|v| v.k == *k).map(answer).unwrap_or(true));
+            o
         }
         SetOp::Clear => {
             model.s.clear();
@@ -373,6 +399,19 @@ pub fn exec_real<K: KeyT, const N: usize>(s: &mut Set<K, N>, op: &SetOp, a: &mut
                     let kd = k.kd();
                     items.push(kd);
                     keep & (1 << kd.k) != 0
+                })
+            }));
+            side.items = items;
+            vec![]
+        }
+        SetOp::RetainTape { tape } => {
+            let mut items = Vec::new();
+            crate::subj!(s.retain(|k| {
+                crate::subject::pause(|| {
+                    pl::tick(pl::Cb::Pred);
+                    let answer = tape >> items.len().min(7) & 1 != 0;
+                    items.push(k.kd());
+                    answer
                 })
             }));
             side.items = items;
@@ -559,7 +598,7 @@ impl<K: KeyT, const N: usize> SetSys<K, N> {
                 (vec![F::Panic], true)
             }
         };
-        let mo = exec_model(model, op, &a);
+        let mo = exec_model(model, op, &a, &side.items);
         drop(a);
         if cx.quiet {
             leaked.extend(mo.leak_ok.iter().copied());
@@ -612,6 +651,11 @@ impl<K: KeyT, const N: usize> SetSys<K, N> {
                     cx.check(C12 | C02 | (pm & !C07), ident, || format!("yielded the objects {:?} but the stored objects are {from:?}", side.items));
                 }
             }
+        }
+        if let SetOp::RetainTape { .. } = op {
+            let ok = mo.visit_error.is_none();
+            consistent &= ok;
+            cx.check(pm, ok, || mo.visit_error.clone().unwrap_or_default());
         }
         if let (Some(want), Some((got_pulls, after_none))) = (mo.pulls, side.pulls) {
             cx.check(C16, got_pulls == want, || format!("the source iterator was pulled {got_pulls} times, expected {want}"));
